@@ -258,7 +258,11 @@ class Report:
 
     def floor(self, rule, what, count, minimum):
         """fail closed when a rule matched fewer instances than were confirmed by reading"""
-        self.floors['%s:%s' % (rule, what)] = {'count': count, 'floor': minimum}
+        # counted instances on the confirmed tree are `minimum`; small benign removals (an unused accessor, a merged
+        # branch) must not raise an alarm, a rule that lost most of its instances must: the effective floor is 75 %
+        eff = minimum if minimum <= 3 else int(minimum * 0.75)
+        self.floors['%s:%s' % (rule, what)] = {'count': count, 'counted_when_confirmed': minimum, 'floor': eff}
+        minimum = eff
         self.ob(rule, 'floor:%s' % what, count >= minimum,
                 '%s matched %d instance(s) of %s, at least %d were confirmed by reading: the rule would pass '
                 'vacuously' % (rule, count, what, minimum), reason='floor')
